@@ -7,14 +7,15 @@ Import ListNotations.
 Definition has_tag (tags : list string) (w : string) : bool :=
   existsb (fun t => String.prefix t w) tags.
 
-(* (case impl_trace) -> (proj model ; failed on model ; failed on impl ; proj impl) *)
-Definition tftp_entry (holds : tcase -> list tr -> list string) (proj : list tr -> sx) (x : sx) : sx :=
+(* (case impl_trace) -> (proj model ; failed on model ; failed on impl ; proj impl ; covered),
+   covered = 1 iff the case satisfies the hypotheses of the property's theorems *)
+Definition tftp_entry (covered : tcase -> bool) (holds : tcase -> list tr -> list string) (proj : list tr -> sx) (x : sx) : sx :=
   match x with
   | L [cx; ix] =>
       match de_tcase cx, de_trace ix with
       | Some c, Some it =>
           let m := run_transfer_case c in
-          L [proj m; L (map sxS (holds c m)); L (map sxS (holds c it)); proj it]
+          L [proj m; L (map sxS (holds c m)); L (map sxS (holds c it)); proj it; I (if covered c then 1 else 0)%Z]
       | None, _ => sxS "bad-case"
       | _, None => sxS "bad-trace"
       end
